@@ -9,6 +9,7 @@ namespace Panqec.UF
 
 set_option linter.unusedSimpArgs false
 set_option linter.unusedVariables false
+set_option linter.unnecessarySeqFocus false
 
 /-- rows of equal length with entries 0/1 -/
 structure RectBin (H : Mat) : Prop where
